@@ -27,6 +27,31 @@ def related(patch):
         if c.path in files:
             props |= set(c.props)
     return props
+def run_demo(scratch, d, prop):
+    """Run the change's demonstration against the patched scratch copy; 0 = passes."""
+    demo = f"{d}/demo.py"
+    env = dict(os.environ, PYTHONPATH=scratch)
+    txt = open(demo).read()
+    try:
+        if prop == "C10":
+            dst = f"{scratch}/asimap/test/test_demo_seeded.py"
+            shutil.copy(demo, dst)
+            r = subprocess.run(["/venv/bin/python", "-m", "pytest", "-q", "-p", "no:cacheprovider", "--timeout=300", dst], cwd=scratch, env=env, capture_output=True, text=True, timeout=1200)
+            os.unlink(dst)
+        elif "def test_" in txt:
+            os.makedirs(f"{scratch}/_out", exist_ok=True)
+            shutil.copy(demo, f"{scratch}/_out/demo_seeded.py")
+            extra = ["-p", "asimap.test.conftest"] if prop == "C15" else []
+            r = subprocess.run(["/venv/bin/python", "-m", "pytest", "-q", "-p", "no:cacheprovider", "--timeout=900", *extra, "_out/demo_seeded.py"], cwd=scratch, env=env, capture_output=True, text=True, timeout=1200)
+        else:
+            os.makedirs(f"{scratch}/_out", exist_ok=True)
+            shutil.copy(demo, f"{scratch}/_out/demo_seeded.py")
+            r = subprocess.run(["/venv/bin/python", "_out/demo_seeded.py"], cwd=scratch, env=env, capture_output=True, text=True, timeout=1200)
+        return r.returncode
+    except subprocess.TimeoutExpired:
+        return 124
+
+
 rows = []
 for sid in ids:
     d = f"{VERIF}/seeded/{sid}"
@@ -61,6 +86,15 @@ for sid in ids:
             detected.append(c)
         elif r.returncode != 0:
             alarms.append(f"{c}:exit{r.returncode}")
+    demo_note = ""
+    if own not in detected:
+        # is the change still a violation on the current tree?  (a later repair may have made it harmless)
+        rc = run_demo(scratch, d, own)
+        if rc == 0:
+            demo_note = "demonstration no longer fails with the patch on the current tree: made harmless by a later repair"
+        else:
+            demo_note = f"demonstration still fails with the patch (rc={rc})"
+    meta["matrix_demo_on_current_tree"] = demo_note
     meta["matrix"] = {"applies_to_current_repo": True, "checks_run": checks, "detected_by": detected, "non_violation_exits": alarms, "detail": detail,
                       "seconds": round(time.time() - t0), "repo_head": subprocess.check_output(["git", "-C", "/repo", "rev-parse", "--short", "HEAD"], text=True).strip()}
     json.dump(meta, open(f"{d}/meta.json", "w"), indent=1)
@@ -68,7 +102,7 @@ for sid in ids:
     for c in detected:
         first = "; ".join(re.sub(r".*replay=replays/", "", l) for l in detail[c]["lines"][:2])
         break
-    rows.append((sid, own, ", ".join(detected) or "MISSED", ", ".join(alarms), first[:150]))
+    rows.append((sid, own, ", ".join(detected) or ("no longer a violation (repaired since)" if demo_note.startswith("demonstration no longer") else "MISSED"), ", ".join(alarms), first[:150]))
     shutil.rmtree(scratch, ignore_errors=True)
     print(rows[-1], flush=True)
 shutil.rmtree(snap, ignore_errors=True)
